@@ -13,5 +13,6 @@ def register(obj):
 
 
 def load_all():
-    from . import exchange, trade, broker, allocation, rebalancing, rebalance  # noqa
+    from . import exchange, trade, broker, allocation, rebalancing, rebalance, exchange14  # noqa
+    REGISTRY["builtin:defaultdict"] = exchange14.empty_history
     return REGISTRY
